@@ -476,6 +476,9 @@ def _topo_body(case, alt, env, rounds, added, forks):
             for k in TOPO_KEYS:
                 try:
                     other.get(k)
+                except KeyboardInterrupt:
+                    if case.get("interrupt_close") is None:
+                        raise
                 except Exception as e:  # noqa: BLE001
                     raise Violation(["topology", "bystander-raises", type(e).__name__], "a second HashClient over %r (never failing) raised %r for get(%r)" % (other_names, e, k))
             for i, s in enumerate(env.servers):
@@ -485,9 +488,17 @@ def _topo_body(case, alt, env, rounds, added, forks):
                         if i != want:
                             raise Violation(["topology", "bystander-placement"], "a second HashClient over %r sent %r to %r; the rule over its own servers gives %r"
                                             % (other_names, kk.decode(), _topo_name(env.addrs[i]), _topo_name(env.addrs[want])))
+        if case.get("interrupt_close") is not None:
+            # the n-th close() of a socket from now on is cut short by a KeyboardInterrupt (a signal, a greenlet timeout), wherever
+            # that close happens - in the middle of bringing a server back, for instance; the application survives it
+            env.net.plan([{"call": None, "kind": "close", "nth": case["interrupt_close"], "what": "kbd"}])
         for ev in list(case["events"]) + [("up", None), ("adv", 61), ("t",), ("adv", 61), ("t",)]:
             if ev[0] == "add":
-                _topo_add(c, TOPO_UNIVERSE[ev[1]], ev[2] if alt else 0)
+                try:
+                    _topo_add(c, TOPO_UNIVERSE[ev[1]], ev[2] if alt else 0)
+                except KeyboardInterrupt:
+                    if case.get("interrupt_close") is None:
+                        raise
                 if ev[1] not in added:
                     added.append(ev[1])
             elif ev[0] == "down":
@@ -498,6 +509,11 @@ def _topo_body(case, alt, env, rounds, added, forks):
                         s.down = None
             elif ev[0] == "adv":
                 env.clock.advance(ev[1])
+            elif ev[0] == "b":
+                try:
+                    c.flush_all()          # a broadcast: it talks to every configured server, those out of rotation too
+                except (OSError, MemcacheError, KeyboardInterrupt):
+                    pass
             elif ev[0] == "fork":
                 # the process forks (a pre-forking server, multiprocessing): the child goes on with the client object it
                 # inherited, and for the same events it must send every key where the parent sends it
@@ -523,9 +539,14 @@ def _topo_body(case, alt, env, rounds, added, forks):
                         c.get(k)
                     except (OSError, MemcacheError) as e:
                         errs.append(type(e).__name__)
+                    except KeyboardInterrupt:
+                        if case.get("interrupt_close") is None:
+                            raise
+                        errs.append("KeyboardInterrupt")
+                        continue
                     except Exception as e:  # noqa: BLE001
                         raise Violation(["topology", "internal-error", type(e).__name__], "get(%r) raised %r" % (k, e))
-                    if errs and case["ignore_exc"]:
+                    if [x for x in errs if x != "KeyboardInterrupt"] and case["ignore_exc"]:
                         raise Violation(["topology", "escaped-with-ignore_exc"], "get(%r) raised %s with ignore_exc" % (k, errs[-1]))
                 where = {}
                 for i, s in enumerate(env.servers):
@@ -534,6 +555,9 @@ def _topo_body(case, alt, env, rounds, added, forks):
                             where[kk.decode()] = i
                 try:
                     c.get_many(TOPO_KEYS)
+                except KeyboardInterrupt:
+                    if case.get("interrupt_close") is None:
+                        raise
                 except (OSError, MemcacheError) as e:
                     if case["ignore_exc"]:
                         raise Violation(["topology", "escaped-with-ignore_exc"], "get_many raised %r with ignore_exc" % (e,))
@@ -541,106 +565,6 @@ def _topo_body(case, alt, env, rounds, added, forks):
                     raise Violation(["topology", "internal-error", type(e).__name__], "get_many raised %r" % (e,))
                 rounds.append((where, sorted(set(errs))))
                 bystander()
-        if forks and forks[-1] == "child":
-            os._exit(3)
-        raise
-
-
-def _topo_body(case, alt, env, rounds, added, forks):
-    import pickle
-    from vlib.harness import virtual_time
-    from pymemcache.exceptions import MemcacheError
-    with virtual_time(env.clock):
-        c = HashClient([TOPO_UNIVERSE[i] for i in case["initial"]], socket_module=env.net, retry_attempts=0, dead_timeout=60, retry_timeout=1,
-                       ignore_exc=case["ignore_exc"], use_pooling=case["pooled"], timeout=1, default_noreply=False)
-        other = HashClient(list(TOPO_BYSTANDERS), socket_module=env.net, retry_attempts=0, dead_timeout=60, retry_timeout=1, ignore_exc=case["ignore_exc"],
-                           use_pooling=not case["pooled"], timeout=1, default_noreply=False)
-        other_names = [_topo_name(a) for a in TOPO_BYSTANDERS]
-        nsrv = len(TOPO_UNIVERSE)
-        def bystander():
-            # the bystander's keys go where the rule over ITS servers puts them, whatever the first client has been through
-            marks2 = [len(s.log) for s in env.servers]
-            for k in TOPO_KEYS:
-                try:
-                    other.get(k)
-                except Exception as e:  # noqa: BLE001
-                    raise Violation(["topology", "bystander-raises", type(e).__name__], "a second HashClient over %r (never failing) raised %r for get(%r)" % (other_names, e, k))
-            for i, s in enumerate(env.servers):
-                for rec in s.log[marks2[i]:]:
-                    for kk in rec.get("keys", ()):
-                        want = nsrv + other_names.index(refhash.place(other_names, kk.decode()))
-                        if i != want:
-                            raise Violation(["topology", "bystander-placement"], "a second HashClient over %r sent %r to %r; the rule over its own servers gives %r"
-                                            % (other_names, kk.decode(), _topo_name(env.addrs[i]), _topo_name(env.addrs[want])))
-        for ev in list(case["events"]) + [("up", None), ("adv", 61), ("t",), ("adv", 61), ("t",)]:
-            if ev[0] == "add":
-                _topo_add(c, TOPO_UNIVERSE[ev[1]], ev[2] if alt else 0)
-                if ev[1] not in added:
-                    added.append(ev[1])
-            elif ev[0] == "down":
-                env.servers[ev[1]].down = ev[2]
-            elif ev[0] == "up":
-                for i, s in enumerate(env.servers):
-                    if ev[1] in (None, i):
-                        s.down = None
-            elif ev[0] == "adv":
-                env.clock.advance(ev[1])
-            elif ev[0] == "fork":
-                # the process forks (a pre-forking server, multiprocessing): the child goes on with the client object it
-                # inherited, and for the same events it must send every key where the parent sends it
-                if forks and forks[-1] == "child":
-                    continue
-                sys.stdout.flush()
-                sys.stderr.flush()
-                rd, wr = os.pipe()
-                pid = os.fork()
-                if pid == 0:
-                    os.close(rd)
-                    forks.append((len(rounds), wr))
-                    forks.append("child")
-                else:
-                    os.close(wr)
-                    forks.append((len(rounds), rd, pid))
-            else:
-                bystander()
-                marks = [len(s.log) for s in env.servers]
-                errs = []
-                for k in TOPO_KEYS:
-                    try:
-                        c.get(k)
-                    except (OSError, MemcacheError) as e:
-                        errs.append(type(e).__name__)
-                    except Exception as e:  # noqa: BLE001
-                        raise Violation(["topology", "internal-error", type(e).__name__], "get(%r) raised %r" % (k, e))
-                    if errs and case["ignore_exc"]:
-                        raise Violation(["topology", "escaped-with-ignore_exc"], "get(%r) raised %s with ignore_exc" % (k, errs[-1]))
-                where = {}
-                for i, s in enumerate(env.servers):
-                    for rec in s.log[marks[i]:]:
-                        for kk in rec.get("keys", ()):
-                            where[kk.decode()] = i
-                try:
-                    c.get_many(TOPO_KEYS)
-                except (OSError, MemcacheError) as e:
-                    if case["ignore_exc"]:
-                        raise Violation(["topology", "escaped-with-ignore_exc"], "get_many raised %r with ignore_exc" % (e,))
-                except Exception as e:  # noqa: BLE001
-                    raise Violation(["topology", "internal-error", type(e).__name__], "get_many raised %r" % (e,))
-                rounds.append((where, sorted(set(errs))))
-                # the bystander's keys go where the rule over ITS servers puts them, whatever the first client has been through
-                marks2 = [len(s.log) for s in env.servers]
-                for k in TOPO_KEYS:
-                    try:
-                        other.get(k)
-                    except Exception as e:  # noqa: BLE001
-                        raise Violation(["topology", "bystander-raises", type(e).__name__], "a second HashClient over %r (never failing) raised %r for get(%r)" % (other_names, e, k))
-                for i, s in enumerate(env.servers):
-                    for rec in s.log[marks2[i]:]:
-                        for kk in rec.get("keys", ()):
-                            want = nsrv + other_names.index(refhash.place(other_names, kk.decode()))
-                            if i != want:
-                                raise Violation(["topology", "bystander-placement"], "a second HashClient over %r sent %r to %r; the rule over its own servers gives %r"
-                                                % (other_names, kk.decode(), _topo_name(env.addrs[i]), _topo_name(env.addrs[want])))
         if forks and forks[-1] == "child":
             at, wr = forks[-2]
             with os.fdopen(wr, "wb") as f:
@@ -657,7 +581,11 @@ def _topo_body(case, alt, env, rounds, added, forks):
                 if x != y:
                     raise Violation(["topology", "forked-child-differs"], "traffic round %d after the fork: the parent sent keys to %r (errors %r), the forked child to %r (errors %r)"
                                     % (j, x[0], x[1], y[0], y[1]))
-        c.close()
+        try:
+            c.close()
+        except KeyboardInterrupt:
+            if case.get("interrupt_close") is None:
+                raise
     return rounds, added
 
 
@@ -692,9 +620,10 @@ def topology_strategy(tier):
                    st.tuples(st.just("down"), st.integers(0, len(TOPO_UNIVERSE) - 1), st.sampled_from(["refused", "timeout", "reset-recv"])),
                    st.tuples(st.just("up"), st.integers(0, len(TOPO_UNIVERSE) - 1)),
                    st.tuples(st.just("adv"), st.sampled_from([1.5, 30, 61])),
-                   st.tuples(st.just("t")), st.tuples(st.just("t")), st.tuples(st.just("t")), st.tuples(st.just("fork")))
+                   st.tuples(st.just("t")), st.tuples(st.just("t")), st.tuples(st.just("t")), st.tuples(st.just("fork")), st.tuples(st.just("b")))
     return st.fixed_dictionaries({"initial": st.lists(st.integers(0, len(TOPO_UNIVERSE) - 1), min_size=1, max_size=4, unique=True),
-                                  "events": st.lists(ev, min_size=1, max_size=12), "ignore_exc": st.booleans(), "pooled": st.booleans()})
+                                  "events": st.lists(ev, min_size=1, max_size=12), "ignore_exc": st.booleans(), "pooled": st.booleans(),
+                                  "interrupt_close": st.one_of(st.none(), st.none(), st.integers(0, 12))})
 
 
 def topology_cases(tier, seed):
@@ -713,6 +642,12 @@ def topology_cases(tier, seed):
             for late in ((), (4,)):
                 evs = [("add", i, 1 + (i + len(late)) % 4) for i in late] + [("down", i, "refused") for i in downs] + [("t",), ("t",), ("adv", 61), ("up", None), ("t",), ("t",)]
                 yield {"initial": [0, 1, 2, 3], "events": evs, "ignore_exc": ie, "pooled": bool(sum(downs) % 2)}
+    # bringing a server back is cut short by an interruption inside a close(); later the server goes away and comes back again
+    for nth in range(10):
+        for ie in (False, True):
+            for pooled in (False, True):
+                evs = [("t",), ("down", 0, "refused"), ("t",), ("up", 0), ("b",), ("adv", 61), ("t",), ("t",), ("down", 0, "refused"), ("t",), ("up", 0), ("adv", 61), ("t",)]
+                yield {"initial": [0, 1, 2], "events": evs, "ignore_exc": ie, "pooled": pooled, "interrupt_close": nth}
     # the process forks at every point of an outage; parent and child go on with the same object
     for target in (0, 2, 3):
         for when in range(6):
